@@ -1,1 +1,52 @@
-"""C03 contracts (planned: boolean skeleton of the converter over a free SQL term algebra)."""
+"""C03 - 'every character taken literally': the LIKE pattern built for a text / file filter value denotes that value and
+nothing else.  `_escape_like` is verified for every string up to a stated length (bounded-symbolic over the characters):
+decoding the pattern under the LIKE ... ESCAPE '\\' rules gives back the value, and no character of the pattern acts as a
+wildcard.  The SQL built around it is decided by the bounded tier only (real SQLite)."""
+import os
+
+from engine.spec import T, contract
+
+LMAX = 3 if os.environ.get("VERIF_TIER") != "thorough" else 5
+Q = "zorg.storage.sql._query_converter:"
+
+
+def like_decode(p):
+    """the literal a LIKE pattern with ESCAPE '\\' denotes when it holds no active wildcard: an escaped character stands for
+    itself"""
+    out = ""
+    i = 0
+    while i < len(p):
+        if p[i] == "\\" and i + 1 < len(p):
+            out = out + p[i + 1]
+            i = i + 2
+        else:
+            out = out + p[i]
+            i = i + 1
+    return out
+
+
+def like_is_literal(p):
+    """no unescaped % or _ and no dangling escape character"""
+    i = 0
+    ok = True
+    while i < len(p):
+        if p[i] == "\\":
+            if i + 1 >= len(p):
+                ok = False
+            i = i + 2
+        else:
+            if p[i] == "%" or p[i] == "_":
+                ok = False
+            i = i + 1
+    return ok
+
+
+contract(
+    Q + "_escape_like", props=["C03"], args={"value": T.bstr(0, LMAX)}, returns=T.str(),
+    bounded_note=f"bounded-symbolic: values of at most {LMAX} characters, every character symbolic",
+    ensures={
+        "denotes-the-value": "like_decode(result) == value",
+        "no-active-wildcard": "like_is_literal(result)",
+        "only-the-three-special-characters-are-escaped": "len(result) == len(value) + sum(1 for c in value if c in '\\\\%_')",
+    },
+)
